@@ -35,7 +35,9 @@ CHECKS = {
  "C31": ("exploration", "system-level half: with BlockRebalanceOnPoll no revoke/lost callback starts between a poll that returned records and the following AllowRebalance; deadlock-freedom through the bounded-liveness checks of the group scenario", BASE + "; 60% of the plans are the micro scenarios (gate functions through a verif-tagged wrapper around a bare consumer; synctest Mutex/RWMutex under lock/rlock/trylock mixes) with occupancy oracles"),
  "C10": ("exploration", "GroupTransactSession pipeline (input topic -> one output per input) with 1-3 session members that join, close and restart (also mid-transaction), following the documented error protocol (an error from Begin/End closes and replaces the member), under transactional/group-path faults, leader moves and coordinator rehash; oracle on the reference read_committed view of the output: no duplicate, nothing missing after heal", BASE),
  "C11": ("fault_enumeration", "transactional producer workloads; every single fault (kill_req, kill_resp, fabricated retriable/fatal coordinator errors incl. CONCURRENT_TRANSACTIONS, rewritten responses, stall past the transaction time-out) at every position of InitProducerID/AddPartitionsToTxn/Produce/EndTxn, with KIP-890p2 on and off, plus sampled double faults and coordinator moves; oracle: reported commit => visible, reported abort/error => never visible (also after two later commits), unconfirmed outcome (broker executed a commit the client could not confirm) => atomic", BASE + "; the enumeration is complete for the listed positions/kinds of the base workloads, sampled beyond"),
- "C14": ("exploration", "hook recorder in every produce run: buffered/unbuffered exactly once per record with the promise's error", BASE + "; fetch-side hooks are checked inside the consumer scenarios (classes C14/fetch-*)"),
+ "C13": ("exploration", "every end-to-end scenario (produce, direct consume, group incl. KIP-848 and BlockRebalanceOnPoll, GroupTransactSession, transactional producer) with one extra plan element: Close (CloseAllowingRebalance when rebalances are blocked) of one client from a goroutine of its own at a generated simulated time or at the n-th request/response frame of a kind on its connections, with that client's network healed, as the fault plan left it, refusing, black-holed, slow or a frozen peer (accepts, never answers), the network change optionally preceding the Close; oracles: Close returns within a bound computed from the configured time-outs (5 s for a client that only produces), polls afterwards report ErrClientClosed, every buffered record's promise runs within 30 s, no client goroutine exists 2 min after all clients are closed", BASE + "; the bound is derived from the dial/request/retry/rebalance time-outs of the plan, so a Close that waits one extra request time-out inside a group leave is within it; share-group clients are not covered"),
+ "C14": ("exploration", "hook recorders in producer runs (buffered/unbuffered exactly once per record with the promise's error) and in direct-consumer runs (OnFetchRecordBuffered/Unbuffered exactly once per record, fetch gauges zero after Close), with callbacks that take simulated time or yield, several sources per poll, a second goroutine polling the same client, pause/resume/add/remove/purge from another goroutine", BASE),
+ "C41": ("exploration", "the simulation binary built with the Go race detector runs plans of every end-to-end scenario (produce, direct consume with pause/resume/add/remove/purge, group, GroupTransactSession, transactional producer; half of them with the C13 closer) under seeded yields and run-queue randomisation; a race report with a pkg/kgo frame in one of the two conflicting accesses is a violation and replays because the run is deterministic", "the race detector sees only the interleavings the seeded scheduler produces; about 0.7 s per run, so a few hundred (quick) to a few thousand (thorough) runs; reports between harness/kfake code only are counted, not judged"),
  "C18": ("exploration", "wire monitor decodes every Produce request that reaches a broker with kmsg + an independent record-batch decoder: one batch per partition, CRC, counts, deltas, timestamps, producer fields, sequence reuse against the broker's genuine verdict, request <= BrokerMaxWriteBytes, batch <= ProducerBatchMaxBytes; knobs force the limits (1-4 KiB)", BASE + "; produce v0-v2 (message sets) are not reachable because kfake rejects them"),
  "C30": ("exploration", "micro scenario (no network): the real ring[int] and workLoop of pkg/kgo through verif-tagged wrappers, 2-5 pushers (blocking and forced), worker spawn on first push exactly as the callers do it, kill, growth and shrink, bounded and unbounded rings; 2-4 signallers against the work latch incl. hard finishes with the documented compensation; seeded yields before every lock/cond/atomic; oracle: accepted => handed to exactly one worker invocation, per-pusher and real-time push order, one worker at a time, dead ring rejects, no pusher or worker left blocked, no pending work without a worker", "preemption explored at the synchronisation points of pkg/kgo's ring.go/atomic_maybe_work.go (seeded yields + seeded run-queue choices); sampled, not exhaustive; an uncompensated hardFinish may strand work by design and is not generated"),
  "C39": ("exploration", "direct consumers selecting by topic list, regex with exclusion, or explicit partitions while topics are created (matching, non-matching, internal), grown and deleted and the application adds/removes/purges; oracle: every returned record is selected as of its poll, nothing after remove/purge, everything selected is consumed after heal", BASE),
